@@ -436,6 +436,9 @@ def run_shard(ctx):
                     ctx.ctr("both_id_header_cases")
                     if not o.ok:
                         ctx.ctr("rejected:both-ids")
+                        # "advisory only": the pair draws a warning, it is no reason to refuse the form
+                        ctx.viol("dup_id:form-refused", f"[both-ids] settings headers {keys} (blank cell: {blank}): the form is refused instead of warned about: {o.brief()[:200]}",
+                                 {"sheets_md": common.sheets_to_md(sheets), "klass": "both-ids", "sheets": {k: [list(h), rows] for k, (h, rows) in sheets.items()}, "args": {}, "fmt": "dict"})
                         continue
                     ctx.case(sig=f"both-ids|{h_form}|{h_ids}|{order}|{blank}")
                     ctx.ctr("forms_judged")
